@@ -294,6 +294,12 @@ class TableReads:
                         tr.fired[f] = tr.fired.get(f, 0) + 1
                         if tr.log is not None:
                             tr.log.add("FAULT", kind="read_" + f, at=idx)
+                        if f == "truncated":
+                            # transient torn read: the table was being rewritten while THIS read happened; pandas
+                            # parses the first half without complaint. Only the job that made this read may be
+                            # wrong; every later job reads the complete file again.
+                            df = orig(*a, **k)
+                            return df.iloc[: max(1, len(df) // 2)].copy()
                         if f == "enoent":
                             raise FileNotFoundError(2, "simulated missing table", name)
                         if f == "parse":
@@ -377,6 +383,17 @@ class _SolverProxy:
                 return st
             if f == "slow" and sim.clock is not None:
                 sim.clock.advance(60.0 * (1 + sim.rng.randrange(600)))
+            if f.startswith("iterate:"):
+                # the solver stops with a non-optimal status AFTER writing its last (not feasible, not optimal)
+                # iterate into the variables - what PuLP does when CBC reports "Infeasible" / "Not Solved" with a
+                # solution section. Fail-stop for the caller: the status says the values must not be used.
+                st = int(f.split(":")[1])
+                self.real.actualSolve(lp, **kw)
+                for v in lp.variables():
+                    if v.varValue is not None and sim.rng.random() < 0.3:
+                        v.varValue = v.varValue * (0.9 + 0.2 * sim.rng.random())
+                lp.assignStatus(st)
+                return st
         if sim.mode == "vertex":
             from . import lpsolve
 
